@@ -40,6 +40,15 @@ SITE_TABLE = {
 }
 
 
+def site_key(f):
+    """the SITE_TABLE entry of a write site: by qualified name, or - for a writer that was moved (to module level, to another class) and
+    kept its name - by the name alone when that is unambiguous"""
+    if f.qualname in SITE_TABLE:
+        return f.qualname
+    c = [k for k in SITE_TABLE if k.split(".")[-1] == f.name]
+    return c[0] if len(c) == 1 else f.qualname
+
+
 def check(ctx):
     repo = ctx.repo
     cg = ctx.cg
@@ -85,7 +94,7 @@ def check(ctx):
                         break
                 if site is None:
                     site = frames[-1][0]
-                reachable_sites.add(site.qualname)
+                reachable_sites.add(site_key(site))
                 facts_env = False
                 flags = set()
                 for f, c in frames:
@@ -99,7 +108,7 @@ def check(ctx):
                 chain = " -> ".join(f.qualname for f, _ in frames)
                 key = f"{root.qualname}|{chain}|{util.stmt_text(frames[-1][1], 60)}"
                 where = frames[-1][0].where(frames[-1][1])
-                want = SITE_TABLE.get(site.qualname)
+                want = SITE_TABLE.get(site_key(site))
                 if want is None:
                     ctx.ob("C18.R1.unlisted", key, bool(flags), where,
                            f"write site {site.qualname} ({desc}) is not a known artefact; guarded by flags {sorted(flags)}"
@@ -265,7 +274,7 @@ def _same_run_rule(ctx, G):
     holders = set()
     for c in util.own_nodes(ns, ast.Call):
         for callee in ctx.resolver.resolve_call(ns, c):
-            if isinstance(callee, FuncInfo) and callee.qualname in SITE_TABLE and isinstance(c.func, ast.Attribute) and self_attr(c.func.value):
+            if isinstance(callee, FuncInfo) and site_key(callee) in SITE_TABLE and isinstance(c.func, ast.Attribute) and self_attr(c.func.value):
                 holders.add(self_attr(c.func.value))
     ctx.sites("C18.R5", len(holders), 1, "persistent write on a client attribute in get_national_summary_votes_estimates")
     reads = {self_attr(n) for n in util.own_nodes(ns, ast.Attribute) if isinstance(n.ctx, ast.Load) and self_attr(n)}
